@@ -31,6 +31,15 @@ def arg_name():
     return n
 
 
+def _reserve_arg_names(tree: ast.AST):
+    "Names of the form `arg_<n>` that are in use in `tree` are never handed out by `arg_name`"
+    global argument_var_counter
+    for n in ast.walk(tree):
+        name = n.id if isinstance(n, ast.Name) else n.arg if isinstance(n, ast.arg) else None
+        if name is not None and name.startswith("arg_") and name[4:].isdecimal():
+            argument_var_counter = max(argument_var_counter, int(name[4:]) + 1)
+
+
 def make_args_unique(a: ast.Lambda) -> ast.Lambda:
     """
     Replaces the lambda with a new lambda, with unique arguments names
@@ -187,6 +196,17 @@ class simplify_chained_calls(FuncADLNodeTransformer):
         self._arg_stack = argument_stack()
         # The `obj.method` nodes of the method calls we are inside of
         self._method_names: List[ast.Attribute] = []
+        self._visit_depth = 0
+
+    def visit(self, node: ast.AST):
+        if self._visit_depth == 0:
+            # What we are handed may already use names that look like the ones we make up.
+            _reserve_arg_names(node)
+        self._visit_depth += 1
+        try:
+            return super().visit(node)
+        finally:
+            self._visit_depth -= 1
 
     def _visit_substituted(self, node: ast.AST) -> ast.AST:
         """Visit a node built out of parts that have already been visited. Every pending
